@@ -6,6 +6,7 @@ import (
 	"testing"
 
 	"github.com/DataDog/sketches-go/ddsketch"
+	"github.com/DataDog/sketches-go/ddsketch/mapping"
 	"pgregory.net/rapid"
 	"verifharness/gen"
 	"verifharness/model"
@@ -465,58 +466,84 @@ func FuzzC07Grammar(f *testing.F) {
 // TestC07_FarIndexes: mappings with a very fine (legal) accuracy put the two ends of the indexable range more
 // than 2^32 indexes apart, so that encoded index deltas do not fit in 32 bits. Producers and consumers are the
 // stores that can hold such indexes (sparse; buffered-paginated with unit weights only, which stay in its buffer).
+// farSource builds a sketch at a very fine accuracy whose bins can lie more than 2^31 indexes apart (sparse producer,
+// or paginated producer fed unit weights only: both keep such bins without allocating what lies between them).
+type farSrc struct {
+	spec     gen.MapSpec
+	m        mapping.IndexMapping
+	kind     string
+	alpha    float64
+	prodKind string
+	unitOnly bool
+	sc       skCfg
+	s        obs.SK
+	k        *skModel
+	span     int
+}
+
+func farSource(t *rapid.T, cl *caseLog, prop string, unitOnlyForced bool, like *farSrc) farSrc {
+	var f farSrc
+	if like != nil {
+		f.alpha, f.kind = like.alpha, like.kind
+	} else {
+		f.alpha = rapid.SampledFrom([]float64{1e-7, 1.5e-7, 2e-7, 3e-7, 1e-6}).Draw(t, "alpha")
+		f.kind = rapid.SampledFrom(gen.MapKinds).Draw(t, "mkind")
+	}
+	f.spec = gen.MapSpec{Kind: f.kind, FromAlpha: true, Alpha: f.alpha, Nominal: f.alpha}
+	m, err := f.spec.Build()
+	if err != nil {
+		t.Fatalf("%s: %v", prop, err)
+	}
+	f.m = m
+	d := newDomain(m)
+	f.unitOnly = unitOnlyForced || rapid.Bool().Draw(t, "unitonly")
+	f.prodKind = "sparse"
+	if f.unitOnly && rapid.Bool().Draw(t, "paginatedproducer") {
+		f.prodKind = "paginated"
+	}
+	f.sc = skCfg{spec: f.spec, m: m, pos: gen.StoreKind{Name: f.prodKind}, neg: gen.StoreKind{Name: f.prodKind}}
+	f.s = f.sc.new()
+	f.k = newSkModel(m)
+	n := rapid.IntRange(2, 12).Draw(t, "n")
+	cl.logf("%s far indexes %s producer=%s unitOnly=%v index range [%d,%d]", prop, f.spec, f.prodKind, f.unitOnly, d.minIdx, d.maxIdx)
+	for i := 0; i < n; i++ {
+		var idx int
+		switch rapid.IntRange(0, 3).Draw(t, "where") {
+		case 0:
+			idx = d.minIdx + rapid.IntRange(0, 1000).Draw(t, "lowoff")
+		case 1:
+			idx = d.maxIdx - rapid.IntRange(0, 1000).Draw(t, "highoff")
+		default:
+			idx = rapid.IntRange(d.minIdx, d.maxIdx).Draw(t, "idx")
+		}
+		v := d.clamp(m.Value(idx))
+		if rapid.Bool().Draw(t, "negside") {
+			v = -v
+		}
+		w := 1.0
+		if !f.unitOnly {
+			w = gen.LightWeight().Draw(t, "w")
+		}
+		if err := f.s.AddWithCount(v, w); err != nil {
+			t.Fatalf("%s far: AddWithCount(%v,%v): %v", prop, v, w, err)
+		}
+		f.k.add(v, w)
+		cl.logf("(%v,%v) index %d", v, w, m.Index(math.Abs(v)))
+	}
+	for _, mm := range []model.Map{f.k.pos, f.k.neg} {
+		if mn, mx, ok := mm.MinMax(); ok && mx-mn > f.span {
+			f.span = mx - mn
+		}
+	}
+	return f
+}
+
 func TestC07_FarIndexes(t *testing.T) {
 	rapid.Check(t, func(t *rapid.T) {
 		cl := newCase("C07")
-		alpha := rapid.SampledFrom([]float64{1e-7, 1.5e-7, 2e-7, 3e-7, 1e-6}).Draw(t, "alpha")
-		kind := rapid.SampledFrom(gen.MapKinds).Draw(t, "mkind")
-		spec := gen.MapSpec{Kind: kind, FromAlpha: true, Alpha: alpha, Nominal: alpha}
-		m, err := spec.Build()
-		if err != nil {
-			t.Fatalf("C07: %v", err)
-		}
-		d := newDomain(m)
-		unitOnly := rapid.Bool().Draw(t, "unitonly")
-		prodKind := "sparse"
-		if unitOnly && rapid.Bool().Draw(t, "paginatedproducer") {
-			prodKind = "paginated"
-		}
-		sc := skCfg{spec: spec, m: m, pos: gen.StoreKind{Name: prodKind}, neg: gen.StoreKind{Name: prodKind}}
-		s := sc.new()
-		k := newSkModel(m)
+		src := farSource(t, cl, "C07", false, nil)
+		spec, m, kind, alpha, prodKind, unitOnly, sc, s, k, span := src.spec, src.m, src.kind, src.alpha, src.prodKind, src.unitOnly, src.sc, src.s, src.k, src.span
 		bud := model.NewBudget(gen.Quantum)
-		n := rapid.IntRange(2, 12).Draw(t, "n")
-		cl.logf("C07 far indexes %s producer=%s unitOnly=%v index range [%d,%d]", spec, prodKind, unitOnly, d.minIdx, d.maxIdx)
-		for i := 0; i < n; i++ {
-			var idx int
-			switch rapid.IntRange(0, 3).Draw(t, "where") {
-			case 0:
-				idx = d.minIdx + rapid.IntRange(0, 1000).Draw(t, "lowoff")
-			case 1:
-				idx = d.maxIdx - rapid.IntRange(0, 1000).Draw(t, "highoff")
-			default:
-				idx = rapid.IntRange(d.minIdx, d.maxIdx).Draw(t, "idx")
-			}
-			v := d.clamp(m.Value(idx))
-			if rapid.Bool().Draw(t, "negside") {
-				v = -v
-			}
-			w := 1.0
-			if !unitOnly {
-				w = gen.LightWeight().Draw(t, "w")
-			}
-			if err := s.AddWithCount(v, w); err != nil {
-				t.Fatalf("C07 far: AddWithCount(%v,%v): %v", v, w, err)
-			}
-			k.add(v, w)
-			cl.logf("(%v,%v) index %d", v, w, m.Index(math.Abs(v)))
-		}
-		span := 0
-		for _, mm := range []model.Map{k.pos, k.neg} {
-			if mn, mx, ok := mm.MinMax(); ok && mx-mn > span {
-				span = mx - mn
-			}
-		}
 		cl.labelIf(span > math.MaxInt32, "index-delta-beyond-int32")
 		cl.label("direction:far-indexes")
 		var b []byte
